@@ -588,9 +588,24 @@ func (rn *runner) one(segs []string, sep, method, rng string, minify bool) {
 	f := rn.c.f
 	tgt := f.target(segs, sep)
 
-	for _, pass := range []string{"miss", "hit"} {
+	passes := []string{"miss", "hit"}
+	if rng != noRange {
+		// a range request for an asset that an earlier plain request has
+		// already put into the asset cache
+		passes = append(passes, "after-full-get")
+	}
+
+	for _, pass := range passes {
 		if pass == "miss" {
 			assets.FlushAssetCache()
+		}
+
+		if pass == "after-full-get" {
+			assets.FlushAssetCache()
+
+			if _, ok := do(http.MethodGet, tgt, noRange); !ok {
+				return
+			}
 		}
 
 		resp, ok := do(method, tgt, rng)
